@@ -280,6 +280,9 @@ class Recon:
                 idx = idx[0]
             return ("iter", it, idx)
         if k == "with":
+            # `with EXPR as name`: for file-like objects __enter__ returns the object itself
+            if not d.index:
+                return self._e(ctx, d.value, d.node, binds, False, depth + 1)
             return S.unk("with:" + d.name)
         if k == "except":
             return S.unk("exc:" + d.name)
@@ -554,7 +557,11 @@ class Recon:
             if target[0] == "arrtype":
                 return self._ctype_call(ctx, node, target[1], target[2], args, kws)
             if target[0] == "attr":
+                if recv[0] == "mod" and str(recv[1]).startswith("ext:"):
+                    return S.call(f"{recv[1]}.{fn.attr}", args, kws)
                 return S.call("." + fn.attr, [recv] + args, kws)
+            if target[0] == "mod" and str(target[1]).startswith("ext:"):
+                return S.call(target[1], args, kws)
             if target[0] == "join":
                 # e.g. self.get rebinding plus method; pick function alternatives
                 funcs = [a for a in target[1] if a[0] == "func"]
@@ -574,6 +581,8 @@ class Recon:
             return S.call(nm, args, kws)
         if f[0] == "cls":
             return S.call("new:" + f[1], args, kws)
+        if f[0] == "mod" and str(f[1]).startswith("ext:"):
+            return S.call(f[1], args, kws)
         if f[0] == "c" and isinstance(f[1], CType):
             return self._ctype_call(ctx, node, f[1], S.C(1), args, kws)
         if f[0] == "arrtype":
